@@ -517,6 +517,14 @@ class Folder:
             return self.ev(t[1][1][2])
         if k == 'discr' and t[1][0] == 'okor':
             return 1 - self.ev(simplify(('discr', t[1][1])))
+        if k == 'discr' and t[1][0] == 'call' and NUM_FN.match(t[1][2]) and NUM_FN.match(t[1][2]).group(2) in ('checked_sub', 'checked_add', 'checked_mul'):
+            return 0 if self._checked(t[1]) is None else 1
+        if k == 'field' and t[2] == '0' and t[1][0] == 'downcast' and t[1][1][0] == 'call' and NUM_FN.match(t[1][1][2]) and \
+                NUM_FN.match(t[1][1][2]).group(2) in ('checked_sub', 'checked_add', 'checked_mul'):
+            v = self._checked(t[1][1])
+            if v is None:
+                raise Unfoldable('payload of None')
+            return v
         if k == 'discr' and t[1][0] == 'tryconv':
             tb = ty_bits(t[1][1])
             v = self.ev(t[1][2])
@@ -555,6 +563,14 @@ class Folder:
                     return 1
             return self.leaf(t)
         return self.leaf(t)
+
+    def _checked(self, c):
+        m = NUM_FN.match(c[2])
+        bits, signed = ty_bits(m.group(1))
+        a, b = self.ev(c[3][0]), self.ev(c[3][1])
+        r = {'checked_sub': a - b, 'checked_add': a + b, 'checked_mul': a * b}[m.group(2)]
+        lo, hi = (-(1 << (bits - 1)), (1 << (bits - 1)) - 1) if signed else (0, (1 << bits) - 1)
+        return r if lo <= r <= hi else None
 
     def binop(self, t):
         op = t[1]
